@@ -62,16 +62,17 @@ theorem clearExch_heap (s : State) (r : Nat) : HeapStatic s.heap (clearExch s r)
 /-- the three possible outcomes of a single `ExchangeMove` call from a clean context -/
 inductive ExchOutcome (r : Nat) (s s' : State) : Bool → Prop
   | failed (hat : s'.atoms = s.atoms) (ha : s'.ctx.addedIdx = []) (hd : s'.ctx.deletedIdx = [])
-      (hdelta : s'.ctx.delta = s.ctx.delta) : ExchOutcome r s s' false
+      (hdelta : s'.ctx.delta = s.ctx.delta) (hcore : ctxCore s'.ctx = ctxCore s.ctx) : ExchOutcome r s s' false
   | inserted (d : V3)
       (hat : s'.atoms = applyDisp (s.atoms.extend (toAddOf (s.obj r) s.ctx))
                 (addMoving (toAddOf (s.obj r) s.ctx) s.atoms.rows.length) d (s.obj r).applyConstraints)
       (ha : s'.ctx.addedIdx = addMoving (toAddOf (s.obj r) s.ctx) s.atoms.rows.length)
-      (hd : s'.ctx.deletedIdx = []) (hdelta : s'.ctx.delta = s.ctx.delta + 1) : ExchOutcome r s s' true
+      (hd : s'.ctx.deletedIdx = []) (hdelta : s'.ctx.delta = s.ctx.delta + 1)
+      (hlp : s'.ctx.lastPos = s.ctx.lastPos) : ExchOutcome r s s' true
   | deleted (l : Int) (hne : whereEq (s.obj r).labels l ≠ [])
       (hat : s'.atoms = s.atoms.delete (whereEq (s.obj r).labels l))
       (ha : s'.ctx.addedIdx = []) (hd : s'.ctx.deletedIdx = whereEq (s.obj r).labels l)
-      (hdelta : s'.ctx.delta = s.ctx.delta - 1) : ExchOutcome r s s' true
+      (hdelta : s'.ctx.delta = s.ctx.delta - 1) (hlp : s'.ctx.lastPos = s.ctx.lastPos) : ExchOutcome r s s' true
 
 theorem exchCall_outcome (r : Nat) (s : State) (hinv : InvG s) (hnew : toAddOf (s.obj r) s.ctx ≠ []) :
     ExchOutcome r s (exchCall r s).2 (exchCall r s).1 ∧ HeapStatic s.heap (exchCall r s).2.heap ∧
@@ -106,7 +107,7 @@ theorem exchCall_outcome (r : Nat) (s : State) (hinv : InvG s) (hnew : toAddOf (
       have := congrArg Ctx.nExch hc; simpa [ctxCore] using this
     rcases halt with ⟨hidx, hat⟩ | ⟨hidx, d, hd⟩
     · simp only [hidx, List.isEmpty_nil, if_true]
-      exact ⟨.failed hat hadd0 hdel0 hdl, hheap.trans (clearExch_heap s1 r), htm, hnx⟩
+      exact ⟨.failed hat hadd0 hdel0 hdl hc, hheap.trans (clearExch_heap s1 r), htm, hnx⟩
     · have hne : idx ≠ [] := by
         rw [hidx]; intro h
         have := congrArg List.length h
@@ -114,9 +115,12 @@ theorem exchCall_outcome (r : Nat) (s : State) (hinv : InvG s) (hnew : toAddOf (
         exact hnew this
       have hie : idx.isEmpty = false := by cases idx <;> simp_all
       simp only [hie, Bool.false_eq_true, if_false]
-      refine ⟨.inserted d hd ?_ hdel0 ?_, ?_, htm, hnx⟩
+      have hlp1 : s1.ctx.lastPos = s.ctx.lastPos := by
+        have := congrArg Ctx.lastPos hc; simpa [ctxCore] using this
+      refine ⟨.inserted d hd ?_ hdel0 ?_ ?_, ?_, htm, hnx⟩
       · simp [clearExch, State.setObj, recordAdded, hadd0, hidx]
       · simp [clearExch, State.setObj, recordAdded, hdl]
+      · simp [clearExch, State.setObj, recordAdded, hlp1]
       · exact hheap.trans (clearExch_heap _ r)
   | false =>
     simp only [Bool.false_eq_true, if_false, exchDel]
@@ -131,10 +135,11 @@ theorem exchCall_outcome (r : Nat) (s : State) (hinv : InvG s) (hnew : toAddOf (
     have hs1c : s1.ctx = s.ctx := by rw [hc, d3]
     by_cases hie : idx.isEmpty = true
     · simp only [hie, if_true]
-      refine ⟨.failed ?_ ?_ ?_ ?_, hheap.trans (clearExch_heap s1 r), ?_, ?_⟩
+      refine ⟨.failed ?_ ?_ ?_ ?_ ?_, hheap.trans (clearExch_heap s1 r), ?_, ?_⟩
       · rw [(clearExch_atoms s1 r).1, hs1a]
       · rw [(clearExch_atoms s1 r).2, hs1c, hinv.noAdded]
       · rw [(clearExch_atoms s1 r).2, hs1c, hinv.noDeleted]
+      · rw [(clearExch_atoms s1 r).2, hs1c]
       · rw [(clearExch_atoms s1 r).2, hs1c]
       · rw [(clearExch_atoms s1 r).2, hs1c]
       · rw [(clearExch_atoms s1 r).2, hs1c]
@@ -146,10 +151,11 @@ theorem exchCall_outcome (r : Nat) (s : State) (hinv : InvG s) (hnew : toAddOf (
       have hne : whereEq (s.obj r).labels l ≠ [] := by
         rw [← hl]; intro h; rw [h] at hie; simp at hie
       simp only [hie', Bool.false_eq_true, if_false]
-      refine ⟨.deleted l hne ?_ ?_ ?_ ?_, ?_, ?_, ?_⟩
+      refine ⟨.deleted l hne ?_ ?_ ?_ ?_ ?_, ?_, ?_, ?_⟩
       · simp [clearExch, State.setObj, hs1a, hl]
       · simp [clearExch, State.setObj, recordDeleted, saveFixed, hs1c, hinv.noSaved, hinv.noAdded]
       · simp [clearExch, State.setObj, recordDeleted, saveFixed, hs1c, hinv.noSaved, hinv.noDeleted, hl]
+      · simp [clearExch, State.setObj, recordDeleted, saveFixed, hs1c, hinv.noSaved]
       · simp [clearExch, State.setObj, recordDeleted, saveFixed, hs1c, hinv.noSaved]
       · exact hheap.trans (clearExch_heap _ r)
       · simp [clearExch, State.setObj, recordDeleted, saveFixed, hs1c, hinv.noSaved]
